@@ -21,12 +21,13 @@ type GenOpts struct {
 	Standalone  bool   // interleave standalone operations on the shared instances
 	CancelOneIn int    // one execution in N scripts a cancellation of its own context (0 = never)
 	Outermost   string // when set, the stack's first policy is of this kind
+	MuteOneIn   int    // one instance in N registers only a random subset of its listeners (0 = all register everything)
 }
 
 var AllKinds = []string{"retry", "retry", "breaker", "fallback", "fallback", "cache", "bulkhead", "timeout", "hedge", "limiter"}
 
 func DefaultOpts() GenOpts {
-	return GenOpts{Kinds: AllKinds, MaxPool: 5, MaxStack: 5, MaxSteps: 6, MaxScript: 6, FireOneIn: 10, Standalone: true, CancelOneIn: 8}
+	return GenOpts{Kinds: AllKinds, MaxPool: 5, MaxStack: 5, MaxSteps: 6, MaxScript: 6, FireOneIn: 10, Standalone: true, CancelOneIn: 8, MuteOneIn: 3}
 }
 
 func genErrName(t *rapid.T, rich bool, label string) string {
@@ -231,6 +232,22 @@ func GenScenario(t *rapid.T, o GenOpts) Scenario {
 			clean = append(clean, p)
 		}
 		sc.Stack = clean
+	}
+	// listeners: some instances register only a subset of theirs (a policy must not depend on a listener being there)
+	if o.MuteOneIn > 0 {
+		for i := range sc.Pool {
+			if rapid.IntRange(1, o.MuteOneIn).Draw(t, "muteSome") != 1 {
+				continue
+			}
+			for _, name := range ListenerNames[sc.Pool[i].Kind] {
+				if name == "OnRetryScheduled" && sc.Pool[i].CancelInScheduled {
+					continue // that listener is the scenario's cancellation source
+				}
+				if rapid.Bool().Draw(t, "mute") {
+					sc.Pool[i].Mute = append(sc.Pool[i].Mute, name)
+				}
+			}
+		}
 	}
 	// cache keys: an empty string key in the context is only drawn when no cache policy has a configured key
 	emptyCtxKeyOK := true
